@@ -1127,7 +1127,7 @@ def fetch_case(env, c):
 
 # --------------------------------------------------------------------------- (c) one ingestion under os-level interposition
 KEY_OPS = {"open_excl": "create", "open_w": "create", "chmod": "chmod", "fwrite": "write", "write": "write", "fflush": "flush",
-           "fclose": "close", "close": "close", "unlink": "unlink", "rename": "rename", "replace": "replace"}
+           "fclose": "close", "close": "close", "unlink": "unlink", "rename": "rename", "replace": "replace", "utime": "utime"}
 
 
 def role_of(rel):
@@ -1236,11 +1236,11 @@ class TxRun:
             finally:
                 st.close()
             return "ok"
-        t0 = time.perf_counter()
+        t0 = time.process_time()          # CPU time, like every other budget here: immune to a loaded machine
         s = self.sched.Scheduler(self.world, {0: go}, collect="exc")
         with self.sched.Interposer(self.world):
             s.run()
-        wall_ms = (time.perf_counter() - t0) * 1000
+        wall_ms = (time.process_time() - t0) * 1000
         res = s.results[0]
         post, bad = L.visible_disk(self.objdir)
         packs, junk = L.pack_dir_state(self.objdir)
